@@ -170,4 +170,23 @@ macro_rules! c08_iter_first {
     };
 }
 
+/// The order matches the lexicographic order of the fixed-width hex strings (small n: printing is expensive).
+macro_rules! c08_hexorder {
+    ($name:ident, $fam:ident, $u:literal) => {
+        #[kani::proof]
+        #[kani::unwind($u)]
+        pub fn $name() {
+            use crate::verif_common::$fam as F;
+            let a = F::any();
+            let b = F::any();
+            let sa = a.to_hex_string();
+            let sb = b.to_hex_string();
+            assert!(sa.len() == sb.len());
+            assert!(sa.as_bytes().cmp(sb.as_bytes()) == a.cmp(&b));
+            kani::cover!(a < b, "less");
+            kani::cover!(true, "reached");
+        }
+    };
+}
+
 // ---- instantiations (generated by /verif/lib/registry.py) ----
